@@ -61,6 +61,10 @@ def read_cmd_line_file(build_dir: str, options: SharedCMDOptions) -> None:
 
     config = CmdLineFileParser()
     config.read(filename)
+    if 'options' not in config:
+        # Empty or truncated file, e.g. left behind by an interrupted run.
+        # Same treatment as a missing file, see update_cmd_line_file().
+        return
 
     # Do a copy because config is not really a dict. options.cmd_line_options
     # overrides values from the file.
@@ -70,7 +74,7 @@ def read_cmd_line_file(build_dir: str, options: SharedCMDOptions) -> None:
     options.builtin_keys = set()
     options.d_keys = set(d)
 
-    properties = config['properties']
+    properties = config['properties'] if 'properties' in config else {}
     if not options.cross_file:
         options.cross_file = ast.literal_eval(properties.get('cross_file', '[]'))
     if not options.native_file:
@@ -90,8 +94,15 @@ def write_cmd_line_file(build_dir: str, options: SharedCMDOptions) -> None:
 
     config['options'] = {str(k): str(v) for k, v in options.cmd_line_options.items()}
     config['properties'] = {k: repr(v) for k, v in properties.items()}
-    with open(filename, 'w', encoding='utf-8') as f:
+    _write_config_file(filename, config)
+
+def _write_config_file(filename: str, config: CmdLineFileParser) -> None:
+    # Write to a temporary file and rename it into place, so that an
+    # interrupted run never leaves a truncated cmd_line.txt behind.
+    tempfilename = filename + '~'
+    with open(tempfilename, 'w', encoding='utf-8') as f:
         config.write(f)
+    os.replace(tempfilename, filename)
 
 def update_cmd_line_file(build_dir: str, options: SharedCMDOptions) -> None:
     filename = get_cmd_line_file(build_dir)
@@ -109,8 +120,7 @@ def update_cmd_line_file(build_dir: str, options: SharedCMDOptions) -> None:
         elif keystr in config['options']:
             del config['options'][keystr]
 
-    with open(filename, 'w', encoding='utf-8') as f:
-        config.write(f)
+    _write_config_file(filename, config)
 
 def format_cmd_line_options(options: SharedCMDOptions) -> str:
     cmdline = ['-D{}={}'.format(str(k), v) for k, v in options.cmd_line_options.items()]
